@@ -51,6 +51,8 @@ func init() {
 		"path/filepath.Dir":          mUninterpStr("filepath.Dir"),
 		"path/filepath.Clean":        mUninterpStr("filepath.Clean"),
 		"sigs.k8s.io/yaml.Unmarshal": mYamlUnmarshal,
+		"sort.Sort":                  mSortSort,
+		"strings.Count":              mStrCount,
 	}
 	lk := func(sc *modScanner, c *ssa.CallCommon) { sc.lockKeysOf(c) }
 	externModelKeys = map[string]func(sc *modScanner, c *ssa.CallCommon){
@@ -394,4 +396,69 @@ func mYamlUnmarshal(f *frame, args []Val, c *ssa.CallCommon, pos string) Val {
 	res := Val{T: types.NewTuple(types.NewVar(0, nil, "err", errorT()), types.NewVar(0, nil, "out", pt.Elem()), types.NewVar(0, nil, "snapshot", pt.Elem())), Fs: []Val{err, nv, shadow}}
 	x.ghostLogCall(f.st, cls, []Val{{T: stringT, S: src}}, res)
 	return err
+}
+
+func mStrCount(f *frame, args []Val, c *ssa.CallCommon, pos string) Val {
+	f.trust("strings.Count is a pure (uninterpreted) function of its arguments, non-negative")
+	fn := f.x.vc.Fun("fn:strings.Count", []string{"String", "String"}, "Int")
+	t := app(fn, args[0].S, args[1].S)
+	f.assume(app(">=", t, "0"))
+	return Val{T: intT, S: t}
+}
+
+// sort.Sort(x) where x is a slice type with Len/Less/Swap methods defined in the repository:
+// afterwards the slice holds a rearrangement of its elements and no element is Less than an
+// earlier one; Less is the real method, evaluated symbolically on the new contents.
+func mSortSort(f *frame, args []Val, c *ssa.CallCommon, pos string) Val {
+	x := f.x
+	h := x.heap
+	vc := x.vc
+	sl, ok := x.boxes[args[0].Fs[1].S]
+	if !ok {
+		panic(unsupported("sort.Sort on an unknown value"))
+	}
+	if _, isSlice := under(sl.T).(*types.Slice); !isSlice {
+		panic(unsupported("sort.Sort on a non-slice type " + sl.T.String()))
+	}
+	mset := x.prog.SSA.MethodSets.MethodSet(sl.T)
+	sel := mset.Lookup(nil, "Less")
+	if sel == nil {
+		for i := 0; i < mset.Len(); i++ {
+			if mset.At(i).Obj().Name() == "Less" {
+				sel = mset.At(i)
+			}
+		}
+	}
+	if sel == nil {
+		panic(unsupported("sort.Sort: no Less method on " + sl.T.String()))
+	}
+	less := x.prog.SSA.MethodValue(sel)
+	if less == nil || len(less.Blocks) == 0 || !x.prog.isRepoFunc(less) {
+		panic(unsupported("sort.Sort: Less of " + sl.T.String() + " is not a repository function"))
+	}
+	f.trust("sort.Sort leaves a rearrangement of the slice's elements in which no element is Less than an earlier one")
+	et := sliceElem(sl.T)
+	base, off, ln := sl.Fs[0].S, sl.Fs[1].S, sl.Fs[2].S
+	pi := vc.Fun(vc.fresh("sort.perm"), []string{"Int"}, "Int")
+	for _, l := range leaves(et) {
+		key := elemKey(et, l.Path)
+		es := h.arrSort(vc.sortOf(l.T))
+		sort := h.arrSort(es)
+		cur := h.get(f.st, key, sort)
+		old := Select(cur, base)
+		na := vc.Const("sorted", es)
+		q := sym(vc.fresh("i"))
+		f.assume("(forall ((" + q + " Int)) " + Ite(And(app("<=", off, q), app("<", q, app("+", off, ln))),
+			And(Eq(Select(na, q), Select(old, app(pi, q))), app("<=", off, app(pi, q)), app("<", app(pi, q), app("+", off, ln))),
+			Eq(Select(na, q), Select(old, q))) + ")")
+		h.set(f.st, key, sort, Ite(Eq(base, "0"), cur, Store(cur, base, na)))
+	}
+	qi, qj := sym(vc.fresh("si")), sym(vc.fresh("sj"))
+	vc.Bound = append(vc.Bound, qi, qj)
+	x.qsyms = append(x.qsyms, qi, qj)
+	lt := x.runClosurePure(f, &Closure{Fn: less}, []Val{sl, {T: intT, S: app("-", qj, off)}, {T: intT, S: app("-", qi, off)}})
+	vc.Bound = vc.Bound[:len(vc.Bound)-2]
+	x.qsyms = x.qsyms[:len(x.qsyms)-2]
+	f.assume("(forall ((" + qi + " Int) (" + qj + " Int)) " + Implies(And(app("<=", off, qi), app("<", qi, qj), app("<", qj, app("+", off, ln))), Not(lt.S)) + ")")
+	return Val{T: types.NewTuple()}
 }
